@@ -244,6 +244,91 @@ func TestC18(t *testing.T) {
 		}
 	})
 
+	// a PCK leaf whose SGX extension carries tens of thousands of further members (pairwise distinct identifiers, some
+	// hundred kilobytes of certificate chain): the answer - a state for the genuinely issued leaf, an error for a forged
+	// one - comes back in the time it takes to read the quote
+	gen.Direct(t, "leaf-with-tens-of-thousands-of-extension-members", func(t *testing.T) {
+		if sh, _ := gen.Shard(); sh != 0 {
+			return
+		}
+		for i, forged := range []bool{false, true} {
+			w := mkWorld(gen.Seed() + 77 + uint64(i))
+			v := w.Sgx
+			top := gen.SgxTree(&v)
+			for k := 0; k < 36000; k++ {
+				top.Kids = append(top.Kids, gen.Seq(gen.OID(1, 3, 6, 1, 4, 1, 99999, 1+k), &gen.Node{Tag: 0x05}))
+			}
+			w.SgxDER = top.Encode()
+			w.Build()
+			raw := w.Raw
+			if forged {
+				raw = append([]byte{}, w.Raw...)
+				raw[48+100] ^= 0x04
+			}
+			var st any
+			var vv gen.Verdict
+			_, hung := gen.CallWatch(90*time.Second, func() error { st, vv = parse(w, raw, nonce, nil, nil); return nil })
+			desc := fmt.Sprintf("quote of %d bytes whose PCK leaf carries 36000 extra SGX-extension members (forged=%v)", len(raw), forged)
+			if hung {
+				gen.Fail(t, gen.Violation{Key: "no-answer:large-leaf", Oracle: "the call returns a state or an error", Detail: desc + ": no answer within 90 s", Replay: map[string]any{"kind": "ccel", "class": "large-leaf"}})
+				return
+			}
+			if forged {
+				if !expectBlocked(t, "large-leaf-forged", desc, st, vv) {
+					return
+				}
+			} else if vv.Panicked() {
+				gen.Fail(t, gen.Violation{Key: "panic@" + gen.PanicSite(vv.Stack), Oracle: "returns a state or an error", Detail: desc + ": " + vv.Panic, Replay: map[string]any{"kind": "ccel", "class": "large-leaf"}})
+				return
+			}
+			gen.NonTrivial("c18large", forged)
+		}
+		gen.Class("leaf-with-tens-of-thousands-of-extension-members")
+	})
+	// no time set in the verification options (what TdxDefaultOpts hands out): a world valid at the real clock with a
+	// revocation-only fault, both flags on - the gate holds exactly as with an explicit time set
+	gen.Direct(t, "revocation-faults-judged-at-the-real-clock", func(t *testing.T) {
+		i := 0
+		for _, c := range gen.Faults {
+			switch c.Name {
+			case "leaf-revoked", "intermediate-revoked", "tcb-signer-revoked", "pck-crl-endpoint-down", "root-crl-endpoint-down", "pck-crl-expired", "root-crl-expired", "intermediate-revoked-and-the-trusted-bundle-also-lists-it", "none":
+			default:
+				continue
+			}
+			i++
+			if !gen.ShardOwns(i) {
+				continue
+			}
+			w := mkWorld(gen.Seed() + 300 + uint64(i))
+			w.UseRealNow()
+			w.HonestCollateral()
+			c.ApplyPre(w)
+			w.Build()
+			c.ApplyPost(w)
+			for _, viaDefault := range []bool{false, true} {
+				st, v := parse(w, w.Raw, nonce, nil, func(o *verify.Options) {
+					n := w.Options(gen.LvlCRL, w.NewGetter(), nil)
+					if viaDefault {
+						d := verify.DefaultOptions()
+						d.TrustedRoots, d.Getter, d.GetCollateral, d.CheckRevocations = n.TrustedRoots, n.Getter, true, true
+						n = d
+					}
+					*o = *n
+				})
+				desc := fmt.Sprintf("fault %s, Options.Now nil (options from DefaultOptions(): %v), collateral and revocation checking on", c.Name, viaDefault)
+				if c.Name == "none" {
+					if st == nil || !v.Accepted() {
+						gen.Inconclusive("real-clock control world blocked: " + v.String())
+					}
+					continue
+				}
+				if !expectBlocked(t, "real-clock:"+c.Name, desc, st, v) {
+					return
+				}
+				gen.NonTrivial("c18now", c.Name, viaDefault)
+			}
+		}
+	})
 	gen.Direct(t, "control-and-rtmr-bits", func(t *testing.T) {
 		nWorlds := 1
 		step := 4
